@@ -41,21 +41,36 @@ type Sxhash struct {
 // Call the function with the arguments provided.
 func (f *Sxhash) Call(s *slip.Scope, args slip.List, depth int) (result slip.Object) {
 	slip.CheckArgCount(s, depth, f, args, 1, 1)
-	obj := args[0]
-	// Numbers are equal if they have the same value no matter what the
-	// representation is so the value as a float is what is hashed. Adding
-	// zero turns -0.0 into 0.0.
-	switch tn := obj.(type) {
-	case slip.Real:
-		obj = slip.DoubleFloat(tn.RealValue() + 0.0)
-	case slip.Complex:
-		if imag(tn) == 0.0 {
-			obj = slip.DoubleFloat(real(tn) + 0.0)
-		}
-	}
 	var h uint64
-	for _, b := range sen.Bytes(slip.SimpleObject(obj)) {
+	for _, b := range sen.Bytes(slip.SimpleObject(hashForm(args[0]))) {
 		h += uint64(0xdf & b) // mask 0x20 to ignore ascii case, for others it doesn't matter
 	}
 	return slip.Fixnum(h & 0x7fffffffffffffff)
+}
+
+// hashForm returns the object to hash in place of obj. Numbers are equal if
+// they have the same value no matter what the representation is so the value
+// as a float is what is hashed. Adding zero turns -0.0 into 0.0. Lists and
+// vectors are equal if their elements are so the same is done for the numbers
+// in them.
+func hashForm(obj slip.Object) slip.Object {
+	switch to := obj.(type) {
+	case slip.Real:
+		obj = slip.DoubleFloat(to.RealValue() + 0.0)
+	case slip.Complex:
+		if imag(to) == 0.0 {
+			obj = slip.DoubleFloat(real(to) + 0.0)
+		}
+	case slip.List:
+		list := make(slip.List, len(to))
+		for i, v := range to {
+			list[i] = hashForm(v)
+		}
+		obj = list
+	case slip.Tail:
+		obj = slip.Tail{Value: hashForm(to.Value)}
+	case *slip.Vector:
+		obj = hashForm(to.AsList())
+	}
+	return obj
 }
